@@ -192,7 +192,9 @@ func c19Outcome(res []any, err error) string {
 }
 
 // typed nil pointers are elements like any other (a non-nil interface value): never a gap
-var c19TypedNils = []any{(*int)(nil), (*string)(nil), (*float64)(nil), (*AStack)(nil)}
+var c19TypedNils = []any{(*int)(nil), (*string)(nil), (*float64)(nil), (*AStack)(nil),
+	// ... and values that cannot be compared with == (or are not equal to themselves): elements like any other
+	[]string{"u1", "u2"}, map[string]int{"k": 1}, math.NaN(), struct{ V []int }{[]int{1}}}
 
 func buildPattern(kind, p string, next func() any) (stackage.Stack, []any) {
 	s := NewStack(kind, 0)
@@ -424,7 +426,17 @@ func c19GenNode(r *core.Rng, depth int, next func() any) *c19Node {
 			n.Cond = append(n.Cond, isCond)
 			var v any = kid.s
 			if isCond {
-				v = stackage.Cond("k", stackage.Eq, kid.s)
+				switch r.Intn(4) {
+				case 0:
+					v = stackage.Cond("k", stackage.Eq, AStack(kid.s)) // the expression in alias form
+				case 1:
+					ks := kid.s
+					v = stackage.Cond("k", stackage.Eq, &ks) // ... held through a pointer
+				case 2:
+					v = ACond(stackage.Cond("k", stackage.Eq, kid.s))
+				default:
+					v = stackage.Cond("k", stackage.Eq, kid.s)
+				}
 			} else if r.Chance(1, 4) {
 				v = AStack(kid.s)
 			}
